@@ -176,11 +176,16 @@ def h_loadpaths(name, path):
         ln.type = tarfile.LNKTYPE
         ln.linkname = name
         tf.addfile(ln)
+        sy = tarfile.TarInfo("Sym/" + name.replace("/", "_"))      # aliases are stored as symbolic links in some archives
+        sy.type = tarfile.SYMTYPE
+        sy.linkname = name
+        tf.addfile(sy)
     buf.seek(0)
     zif = zoneinfo.ZoneInfoFile(buf)
     z_arch = zif.get(name)
     z_link = zif.get("Link/" + name.replace("/", "_"))
-    variants = [("path", z_path), ("stream", z_stream), ("gettz", z_name), ("archive", z_arch), ("archive-link", z_link),
+    z_sym = zif.get("Sym/" + name.replace("/", "_"))
+    variants = [("path", z_path), ("stream", z_stream), ("gettz", z_name), ("archive", z_arch), ("archive-link", z_link), ("archive-symlink", z_sym),
                 ("copy", copy.copy(z_path)), ("deepcopy", copy.deepcopy(z_path))]
     for proto in (0, 2, 5):
         variants.append(("pickle%d" % proto, pickle.loads(pickle.dumps(z_path, proto))))
@@ -237,7 +242,8 @@ ASSUMPTIONS = [
     "symbolic-file cells: struct.unpack as seen from dateutil.tz.tz hands out the solver variables of a file with timecnt <= 3 transitions and typecnt <= 3 types "
     "(counts, type indices and isdst flags pinned per path; transition times and offsets symbolic); the native replay builds the real bytes and parses them with the real struct",
     "datetimes are timestamp-backed stand-ins (engine/tsdt.py), whole seconds",
-    "archive cells build a tar.gz with one zone and one hard-link entry in memory",
+    "archive cells build a tar.gz with one zone, one hard-link entry and one symbolic-link entry in memory",
+    "sub-second instants: one microsecond before / after the transition opening each interval, on real datetimes in the native replay, compared with the whole-second answers",
 ]
 OUTSIDE = ["version-2+ 64-bit data, leap-second records, isstd/isgmt indicators", "files with more than 3 transitions in the symbolic cells (the installed database covers long tables)"]
 
